@@ -107,7 +107,18 @@ class SymNumpy:
             return self.asanyarray(x, dtype=dtype)
         return _np.array(x, dtype=dtype, **kw)
 
+    def ascontiguousarray(self, x, dtype=None, **kw):
+        from .arr import PairArr
+        if isinstance(x, PairArr):
+            return x if x.contiguous else x.copy()
+        if isinstance(x, SymArr):
+            return x if x.contiguous else x.copy()
+        return _np.ascontiguousarray(x, dtype=dtype, **kw)
+
     def atleast_1d(self, x):
+        from .arr import PairArr
+        if isinstance(x, PairArr):
+            return PairArr(x.m, x.contiguous, scalar=False) if x.scalar else x
         if isinstance(x, SymArr):
             return x
         if isinstance(x, (SInt, SBool, SElem)):
